@@ -25,10 +25,19 @@ func runCold(lang int64, seed int64, round int64) {
 		err   error
 		valid bool
 		o     outcome
+		name  string // what Language(lang).String() returned to this caller, asked before anything else
+		name2 string // ... and Language(i % 12 - 1).String()
+		lang  int64
 	}
 	out := make([]res, G)
+	// every third process: the callers use different languages (first uses of several languages overlap)
+	mixed := round%3 == 2
 	for i := range out {
-		out[i].sent = sentence(indicesOf(r.bytes(sizes[r.intn(5)])), int(lang), " ")
+		out[i].lang = lang
+		if mixed {
+			out[i].lang = (lang + int64(i/2)) % 10
+		}
+		out[i].sent = sentence(indicesOf(r.bytes(sizes[r.intn(5)])), int(out[i].lang), " ")
 		out[i].ent = r.bytes(sizes[r.intn(5)])
 	}
 	emit(Event{"op": "Cut", "source": "os", "cold": true, "cold_lang": lang, "cold_seed": seed, "cold_round": round})
@@ -43,13 +52,18 @@ func runCold(lang int64, seed int64, round int64) {
 			}
 			for t0 := time.Now(); time.Since(t0) < time.Duration(i)*step; {
 			}
+			lang := out[i].lang
 			if i%2 == 1 {
 				out[i].o = guarded(func() {
+					out[i].name = bip39.Language(lang).String()
+					out[i].name2 = bip39.Language(i%12 - 1).String()
 					out[i].out, out[i].err = bip39.NewMnemonicByEntropy(out[i].ent, bip39.Language(lang))
 				})
 				return
 			}
 			out[i].o = guarded(func() {
+				out[i].name = bip39.Language(lang).String()
+				out[i].name2 = bip39.Language(i%12 - 1).String()
 				out[i].err = bip39.CheckMnemonic(out[i].sent, bip39.Language(lang))
 				out[i].valid = bip39.IsMnemonicValid(out[i].sent, bip39.Language(lang))
 			})
@@ -59,6 +73,11 @@ func runCold(lang int64, seed int64, round int64) {
 	atomic.StoreInt32(&start, 1)
 	wg.Wait()
 	for i := 0; i < G; i++ {
+		lang := out[i].lang
+		if !out[i].o.panicked && !out[i].o.timeout {
+			emit(Event{"op": "String", "n": bigRec(lang), "out": units(out[i].name), "conc": true, "cls": "cold", "g": i, "panicked": false, "timeout": false})
+			emit(Event{"op": "String", "n": bigRec(int64(i%12 - 1)), "out": units(out[i].name2), "conc": true, "cls": "cold", "g": i, "panicked": false, "timeout": false})
+		}
 		if i%2 == 1 {
 			ent := out[i].ent
 			e := Event{"op": "ByEntropy", "ent": ints(ent), "ent_len": len(ent), "ent_nil": false, "lang": langField(lang), "out": units(out[i].out),
@@ -69,5 +88,10 @@ func runCold(lang int64, seed int64, round int64) {
 		e := Event{"op": "Check", "in": units(out[i].sent), "lang": langField(lang), "err": errRec(out[i].err), "valid": out[i].valid,
 			"in_same": true, "gen": true, "conc": true, "cls": "cold", "g": i}
 		emit(out[i].o.into(e))
+	}
+	// afterwards, alone: whatever went on during the concurrent start, the process must have settled into the same
+	// state a sequential start reaches
+	for i := 0; i < G; i += 2 {
+		recCheck(out[i].sent, out[i].lang, Event{"gen": true, "conc": true, "cls": "cold-after", "g": i})
 	}
 }
